@@ -295,7 +295,8 @@ class Configuration:
         try:
             section_value = self.master_section if section is None else self[section]
             if isinstance(section_value, ConfigurationEntry):
-                return section_value
+                # `section` is an entry of the master section, not a section
+                raise exceptions.MissingSectionError(f"Configuration {self.name!r} has no section {section!r}")
             else:
                 return section_value[key]
         except (exceptions.MissingSectionError, exceptions.MissingEntryError) as err:
